@@ -498,7 +498,7 @@ def run_l3_overlap(ctx):
         if path.startswith("/slow"):
             half = len(data) // 2
             conn.send(data[:half])
-            time.sleep(0.2)
+            time.sleep(0.3)
             conn.send(data[half:])
         elif path == "/late-header":
             time.sleep(0.18)
@@ -508,7 +508,8 @@ def run_l3_overlap(ctx):
         conn.close()
 
     expected = {p: expected_client_result(d, True, CAP) for p, d in streams.items()}
-    combos = [("/slow-text", "/fast"), ("/slow-binary", "/fast"), ("/slow-text", "/stall"), ("/late-header", "/fast"), ("/slow-binary", "/notfound"),
+    # (the call that connects FIRST and ends while a later one is still receiving is the dangerous neighbour)
+    combos = [("/late-header", "/slow-text"), ("/late-header", "/slow-binary"), ("/slow-text", "/fast"), ("/slow-binary", "/fast"), ("/slow-text", "/stall"), ("/late-header", "/fast"), ("/slow-binary", "/notfound"),
               ("/slow-text", "/reset-mid-body"), ("/slow-binary", "/slow-text", "/fast"), ("/late-header", "/stall", "/fast"), ("/fast", "/fast", "/fast")]
     with peers.ScriptedPeer(behaviour=behaviour) as peer:
         for rep in range(ctx.pick(1, 10)):
@@ -517,7 +518,7 @@ def run_l3_overlap(ctx):
                     continue
                 for entry_kinds in (("get",) * len(combo), ("get", "upload", "get")[: len(combo)]):
                     for raw in (False, True) if rep % 2 == 0 else (False,):
-                        stagger = rng.choice([0, 0.02, 0.1])
+                        stagger = rng.choice([0.02, 0.05])
 
                         async def one(client, path, kind, delay):
                             if delay:
